@@ -496,9 +496,12 @@ TypedValue evaluate_binary_op_typed(
     } else if (node->op == "^") {
         return make_integer_typed_value(left_int ^ right_int);
     } else if (node->op == "<<") {
-        return make_integer_typed_value(left_int << right_int);
+        // shift in the unsigned domain with the count reduced modulo 64: defined
+        // for negative operands and any count (matches what the hardware did)
+        return make_integer_typed_value(static_cast<int64_t>(
+            static_cast<uint64_t>(left_int) << (right_int & 63)));
     } else if (node->op == ">>") {
-        return make_integer_typed_value(left_int >> right_int);
+        return make_integer_typed_value(left_int >> (right_int & 63));
     }
 
     // 未対応の演算子の場合は例外
